@@ -27,6 +27,22 @@ BLE_CALLS = {
     "power_off": (lambda c, t: None, lambda o, a: setattr(o, "power", False)),
     "arc": (lambda c, t: c.int(t, -3, 20), lambda o, a: setattr(o, "arc", a)),
     "close_rx_pipe": (lambda c, t: c.int(t, 0, 5), lambda o, a: o.close_rx_pipe(a)),
+    # what a FakeBLE refuses (NotImplementedError) must leave no trace in what it restores on re-entry, whichever inherited
+    # entry point the application tried
+    "refused_set_auto_ack": (lambda c, t: (c.choice(t + "_on", 2), c.int(t + "_pipe", 0, 5)), lambda o, a: o.set_auto_ack(bool(a[0]), a[1])),
+    "refused_auto_ack": (lambda c, t: c.int(t, 0, 63), lambda o, a: setattr(o, "auto_ack", a)),
+    "refused_set_dynamic_payloads": (lambda c, t: (c.choice(t + "_on", 2), c.int(t + "_pipe", 0, 5)),
+                                     lambda o, a: o.set_dynamic_payloads(bool(a[0]), a[1])),
+    "refused_dynamic_payloads": (lambda c, t: c.int(t, 0, 63), lambda o, a: setattr(o, "dynamic_payloads", a)),
+    "refused_data_rate": (lambda c, t: (1, 2, 250)[c.choice(t, 3)], lambda o, a: setattr(o, "data_rate", a)),
+    "refused_address_length": (lambda c, t: c.int(t, 3, 5), lambda o, a: setattr(o, "address_length", a)),
+    "refused_ack": (lambda c, t: c.choice(t, 2), lambda o, a: setattr(o, "ack", bool(a))),
+    "refused_crc": (lambda c, t: c.int(t, 0, 2), lambda o, a: setattr(o, "crc", a)),
+    "refused_load_ack": (lambda c, t: c.int(t, 0, 5), lambda o, a: o.load_ack(b"xy", a)),
+    "refused_open_rx_pipe": (lambda c, t: c.int(t, 0, 5), lambda o, a: o.open_rx_pipe(a, b"1Node")),
+    "refused_open_tx_pipe": (lambda c, t: None, lambda o, a: o.open_tx_pipe(b"2Node")),
+    "refused_set_auto_retries": (lambda c, t: (c.int(t + "_d", 250, 4000), c.int(t + "_c", 0, 15)), lambda o, a: o.set_auto_retries(*a)),
+    "refused_set_payload_length": (lambda c, t: (c.int(t + "_l", 1, 32), c.int(t + "_p", 0, 5)), lambda o, a: o.set_payload_length(*a)),
 }
 NET_CALLS = {
     "channel": (lambda c, t: c.int(t, 0, 125), lambda o, a: setattr(o, "channel", a)),
@@ -137,8 +153,8 @@ def h_blocks(ctx, kind_a, kind_b, calls_a, call_b, kind_c=None):
             args = gen(ctx, "a_%s%d" % (name, i))
             try:
                 do(a, args)
-            except (ValueError, IndexError):
-                pass  # documented rejections (C03); the configuration must still be restored
+            except (ValueError, IndexError, NotImplementedError):
+                pass  # documented rejections (C03, FakeBLE); the configuration must still be restored
         last_a = snap(radio)
     after_exit(ctx, radio, "A's block")
     with b:
